@@ -2612,8 +2612,14 @@ class SliceDataset(Dataset):
             for idx in self.slice:
                 yield self.input_dataset[idx]
 
+    _key_set = None
+
     def __getitem__(self, item):
         if isinstance(item, str):
+            if self._key_set is None:
+                self._key_set = frozenset(self.keys())
+            if item not in self._key_set:
+                raise KeyErrorCloseMatches(item, self.keys())
             return self.input_dataset[item]
         elif isinstance(item, numbers.Integral):
             return self.input_dataset[self.slice[item]]
